@@ -532,11 +532,34 @@ fn lex(src: &str) -> Result<Vec<(Tok, Pos)>, ParseError> {
                             v.push(hv);
                             i += 2;
                         }
-                        b'u' | b'U' | b'0'..=b'7' => {
-                            return Err(ParseError::Unsupported {
-                                line,
-                                msg: "numeric string escape".into(),
-                            });
+                        b'u' | b'U' => {
+                            // \uNNNN / \UNNNNNNNN: exactly 4 / 8 hex digits, a valid code point
+                            // (no surrogate halves), encoded as UTF-8 (spec: Rune literals)
+                            let n = if e == b'u' { 4 } else { 8 };
+                            if i + n > b.len() || !b[i..i + n].iter().all(|c| c.is_ascii_hexdigit()) {
+                                return Err(ParseError::Syntax { line, msg: "invalid \\u escape".into() });
+                            }
+                            let cp = u32::from_str_radix(&src[i..i + n], 16).unwrap();
+                            match char::from_u32(cp) {
+                                Some(ch) => {
+                                    let mut buf = [0u8; 4];
+                                    v.extend_from_slice(ch.encode_utf8(&mut buf).as_bytes());
+                                }
+                                None => return Err(ParseError::Syntax { line, msg: "escape is invalid Unicode code point".into() }),
+                            }
+                            i += n;
+                        }
+                        b'0'..=b'7' => {
+                            // \NNN: exactly three octal digits, value <= 255, one byte
+                            if i + 1 >= b.len() || !(b'0'..=b'7').contains(&b[i]) || !(b'0'..=b'7').contains(&b[i + 1]) {
+                                return Err(ParseError::Syntax { line, msg: "invalid octal escape".into() });
+                            }
+                            let val = ((e - b'0') as u32) * 64 + ((b[i] - b'0') as u32) * 8 + (b[i + 1] - b'0') as u32;
+                            if val > 255 {
+                                return Err(ParseError::Syntax { line, msg: "octal escape value > 255".into() });
+                            }
+                            v.push(val as u8);
+                            i += 2;
                         }
                         _ => {
                             return Err(ParseError::Syntax {
